@@ -18,7 +18,7 @@ Probes(sh) ==
 (* every shape plain; the shapes of family A for two datatypes in every class-hierarchy variant *)
 Nodes == {<<id, 1>> : id \in ShapeIds(Families)}
          \cup {<<id, v>> : id \in {<<"A", "f">>, <<"A", "e">>} \cap ShapeIds(Families), v \in 2 .. Len(Variants)}
-         \cup (IF "C2" \in Families THEN   \* thorough: every datatype {<<id, v>> : id \in IdsOf("A"), v \in 2 .. Len(Variants)} ELSE {})
+         \cup (IF "C2" \in Families THEN {<<id, v>> : id \in IdsOf("A"), v \in 2 .. Len(Variants)} ELSE {})
 ASSUME \A nd \in Nodes :
    LET var == Variants[nd[2]]
        sh == WithFeatures(ShapeOf(nd[1]), var.feats)
